@@ -9,7 +9,9 @@
 (*         id    identity of the hash (or number) carried by the key; a key that is not            *)
 (*               selector + 32 bytes (+ 8 bytes for "num") has an identity no header has          *)
 (*         pre   "num" keys longer than 9 bytes: identity of the number in the first 8 bytes      *)
-(*               after the selector (what a prefix-reading decoder sees), otherwise -1            *)
+(*               after the selector (what a prefix-reading decoder sees); hash-carrying keys      *)
+(*               longer than 33 bytes: identity of the hash in the LAST 32 bytes (what a          *)
+(*               cropping comparison sees); otherwise -1                                          *)
 (*         known a header with that hash exists (then tx,un,wd,rc are ITS roots: "the header     *)
 (*               with the key's block hash", whatever any header source answers)                 *)
 (*   cv  content view  [ok, canon, hid, nid, pf, tx, un, wd, rc, zero] - the content decoded for *)
@@ -41,6 +43,8 @@ DevNames == {"StripWd",       \* F-C02-1 body without withdrawals accepted whate
              "NumKeyPrefix",  \* F-C02-4 block-number key longer than 9 bytes: only the first 8 bytes after the selector are read
              "SlotIndexPanic",\* F-C02-6 (= F-C01-5) slot of a historical-roots proof indexes the accumulator unchecked: index out of range
              "NonCanon",      \* F-C02-5 non-canonical encoding (zero offset table for an empty list) accepted
+             "HashKeyCrop",   \* (seed C02-2) hash compared after padding / cropping the key to 32 bytes (common.BytesToHash): a key with
+                              \*            bytes inserted before the genuine hash counts as that hash
              "NoKeyCheck",    \* (mutant) header accepted without comparing its hash / number with the key
              "NoUncleCheck",  \* (mutant) uncle hash not compared
              "NoTxCheck",     \* (mutant) transactions root not compared
@@ -65,9 +69,10 @@ HeaderOutcome(same, cv, D) ==
   ELSE IF cv.sb /\ "SlotIndexPanic" \in D THEN "panic"        \* the execution-block stage passes, the slot then indexes the accumulator
   ELSE IF cv.pf \/ "NoProof" \in D THEN "accept" ELSE "reject"
 
+SameHash(kv, hid, D) == hid = kv.id \/ ("HashKeyCrop" \in D /\ kv.pre # -1 /\ hid = kv.pre)
 BodyOutcome(kv, cv, sv, D) ==
   IF ~sv.ans THEN "reject"
-  ELSE IF "TrustSource" \notin D /\ sv.hid # kv.id THEN "reject"
+  ELSE IF "TrustSource" \notin D /\ ~SameHash(kv, sv.hid, D) THEN "reject"
   ELSE IF ~cv.ok \/ (~cv.canon /\ "NonCanon" \notin D) THEN "reject"
   ELSE IF "NoUncleCheck" \notin D /\ cv.un # sv.un THEN "reject"
   ELSE IF "NoTxCheck" \notin D /\ cv.tx # sv.tx THEN "reject"
@@ -77,12 +82,12 @@ BodyOutcome(kv, cv, sv, D) ==
 
 ReceiptsOutcome(kv, cv, sv, D) ==
   IF ~sv.ans THEN "reject"
-  ELSE IF "TrustSource" \notin D /\ sv.hid # kv.id THEN "reject"
+  ELSE IF "TrustSource" \notin D /\ ~SameHash(kv, sv.hid, D) THEN "reject"
   ELSE IF sv.rc = EMPTY THEN (IF cv.zero THEN "accept" ELSE "reject")
   ELSE IF cv.ok /\ (cv.canon \/ "NonCanon" \in D) /\ ~cv.zero /\ cv.rc = sv.rc THEN "accept" ELSE "reject"
 
 Outcome(kv, cv, sv, D) ==
-  CASE kv.t = "hash" -> HeaderOutcome(cv.hid = kv.id, cv, D)
+  CASE kv.t = "hash" -> HeaderOutcome(SameHash(kv, cv.hid, D), cv, D)
     [] kv.t = "num"  -> HeaderOutcome(cv.nid = kv.id \/ ("NumKeyPrefix" \in D /\ kv.pre # -1 /\ cv.nid = kv.pre), cv, D)
     [] kv.t = "body" -> BodyOutcome(kv, cv, sv, D)
     [] kv.t = "rcpt" -> ReceiptsOutcome(kv, cv, sv, D)
